@@ -7,6 +7,7 @@ import (
 	"go/types"
 	"sort"
 	"strings"
+	"sync"
 
 	"golang.org/x/tools/go/ssa"
 
@@ -21,7 +22,7 @@ func init() {
 			"R2: every PayInvoiceViaChannel call is cut off by fee <= 3 x Wallet.GetFlatOpeningTXFee() (fee = DecodePayreq amount / 1000 of the very payreq that is paid, directly or through the OpeningTxFee field written from it before the test) and by SpendableMsat >= amount*1000 + invoice msat (64-bit); the unguarded side returns only Event_ActionFailed. " +
 			"R3: GetOpeningTXAmount returns request amount + swap-in premium for a swap-in and the bare amount for a swap-out, GetClaimAmount the converse (per return: value and dominating request test); every CreateOpeningTransaction call passes OpeningParams.Amount = GetOpeningTXAmount(); every claim-type GetPayreq call asks for GetClaimAmount()*1000; in the action that registers the confirmation watch every non-failing exit is cut off by decoded invoice amount == GetClaimAmount()*1000 (inline or through a helper whose nil return is cut off by param == 1000*param, called with these two values) or by the legacy branch AllowNewClaimPayment == false, in which case the RebalancePayment call must be dominated by AllowNewClaimPayment == true; the decoded payreq is the paid one; the pay state is entered only from such states. " +
 			"R4: the Premium field of both agreement messages is the result of premium.Setting.Compute(requester, asset, op, amount) with op = SwapIn for the swap-in agreement and SwapOut for the swap-out agreement, asset = LBTC exactly on the lbtc-chain branch; PremiumLimit of locally created requests is (*premium.PPM).Compute of NewPPM(rate parameter) applied to the value stored in Amount of the same message. " +
-			"R5: outside the responder actions the agreement fields of SwapData are stored only under `field == nil` (a peer cannot replace an agreement whose premium was already checked).",
+			"R5: outside the responder actions the agreement fields of SwapData are stored only under `field == nil` (a peer cannot replace an agreement whose premium was already checked). Guards, effects and replies are followed through in-module helpers (bool predicates, error-returning checks incl. `return check(x)`, reply/delivery helpers; parameters bound to arguments, depth <= 3) and through values selected into locals (phis are judged per incoming edge); a shape that cannot be interpreted yields an undecided obligation (exit 2), a violation is reported only when the whole relevant code was interpreted.",
 		NotD: "Arithmetic wrap-around of uint64(int64(amount)+premium) for premiums below -amount and of amount*1000; float rounding of the factor 3 and the truncation of msat/1000; whether the lightning node pays exactly the decoded amount; that a swap carries only the agreement of its own kind (a foreign-kind agreement stored by SendEvent before the acceptability test makes CheckPremiumAmount dereference a nil request: a crash, not an overpayment); concurrency between the premium check and later reads.",
 		Run:  runC12,
 	})
@@ -115,14 +116,11 @@ func c12AtomOf(f an.Fact) (ssa.Value, bool, bool) {
 }
 
 func c12Cut(w *an.World, fn *ssa.Function, pass func(an.Fact) bool) []an.Edge {
-	var out []an.Edge
-	for _, f := range w.Facts(fn) {
-		if pass(f) {
-			out = append(out, f.Edge)
-		}
-	}
-	return out
+	return c12XOf(w).cut(fn, pass)
 }
+
+// c12Dom: the facts (incl. those derived from helper verdicts) that dominate an instruction.
+func c12Dom(w *an.World, in ssa.Instruction) []an.Fact { return c12XOf(w).dominating(in) }
 
 func c12EdgeSet(es []an.Edge) map[an.Edge]bool {
 	m := map[an.Edge]bool{}
@@ -320,54 +318,238 @@ const (
 	c12Decode   = "iface:swap.LightningClient.DecodePayreq"
 )
 
+type c12Inst struct {
+	f   an.Fact
+	b   *ssa.BasicBlock
+	via an.Edge
+}
+
+// c12Instances: a comparison whose operands are phis of one block (values
+// selected into locals by an if/else chain) is instantiated once per incoming
+// edge; the place of an instance is the predecessor that selects the values.
+func c12Instances(w *an.World, f an.Fact) ([]c12Inst, bool) {
+	var phis []*ssa.Phi
+	for _, v := range []ssa.Value{f.LV, f.RV} {
+		if v == nil {
+			continue
+		}
+		if p, ok := c12StripConv(v).(*ssa.Phi); ok {
+			phis = append(phis, p)
+		}
+	}
+	if len(phis) == 0 {
+		return []c12Inst{{f, f.Edge.From, an.Edge{}}}, true
+	}
+	blk := phis[0].Block()
+	for _, p := range phis {
+		if p.Block() != blk {
+			return nil, false
+		}
+	}
+	var out []c12Inst
+	for i, pred := range blk.Preds {
+		d := f
+		d.Terms = map[string]int64{}
+		for k, c := range f.Terms {
+			d.Terms[k] = c
+		}
+		for _, p := range phis {
+			key := w.Term(p)
+			co, ok := d.Terms[key]
+			if !ok {
+				return nil, false
+			}
+			delete(d.Terms, key)
+			d.Terms[w.Term(p.Edges[i])] += co
+		}
+		via := an.Edge{}
+		if len(pred.Succs) == 2 && pred.Succs[0] != pred.Succs[1] {
+			if pred.Succs[0] == blk {
+				via = an.Edge{From: pred, Idx: 0}
+			} else {
+				via = an.Edge{From: pred, Idx: 1}
+			}
+		}
+		out = append(out, c12Inst{d, pred, via})
+	}
+	return out, true
+}
+
 // c12PremiumKinds: for an Execute function with delegations, the kinds ("In","Out")
-// whose premium test justifies a delegation; ok=false with a reason when some
-// delegation is justified by no kind or a failing side does not fail.
-func c12PremiumKinds(w *an.World, fn *ssa.Function) (kinds map[string]bool, isCheck bool, why string) {
+// whose premium test justifies a delegation. verdict 0 = every delegation is
+// justified; 1 = positively not; 2 = cannot interpret.
+func c12PremiumKinds(w *an.World, fn *ssa.Function) (kinds map[string]bool, isCheck bool, verdict int, why string) {
 	kinds = map[string]bool{}
+	x := c12XOf(w)
 	dels := callsNamed(w, fn, fxActionExecute)
 	if len(dels) == 0 {
-		return kinds, false, ""
+		return kinds, false, 0, ""
 	}
 	type kind struct{ name, agr, prem, lim string }
 	ks := []kind{{"In", "field:SwapData.SwapInAgreement", c12InPrem, c12InLimit}, {"Out", "field:SwapData.SwapOutAgreement", c12OutPrem, c12OutLimit}}
-	mentions := false
-	for _, f := range w.Facts(fn) {
+	mentionsPremium := func(f an.Fact) bool {
 		for k := range f.Terms {
-			if strings.HasSuffix(k, "AgreementMessage.Premium") {
-				mentions = true
+			if strings.Contains(k, "AgreementMessage.Premium") {
+				return true
 			}
 		}
+		return false
 	}
-	if !mentions {
-		return kinds, false, ""
+	var pf []an.Fact
+	for _, f := range x.facts(fn) {
+		if mentionsPremium(f) {
+			pf = append(pf, f)
+		}
+	}
+	var palts []c12Alt
+	for _, a := range x.alternatives(fn) {
+		m := false
+		for _, set := range a.sets {
+			for _, f := range set {
+				if mentionsPremium(f) {
+					m = true
+				}
+			}
+		}
+		if m {
+			palts = append(palts, a)
+		}
+	}
+	if len(pf) == 0 && len(palts) == 0 {
+		return kinds, false, 0, ""
+	}
+	worse := func(v int, m string) {
+		if v == 1 && verdict != 1 || v == 2 && verdict == 0 {
+			verdict, why = v, m
+		}
 	}
 	for _, d := range dels {
-		just := ""
-		for _, k := range ks {
-			k := k
-			set := c12Cut(w, fn, func(f an.Fact) bool { return c12StrRel(f, "!=", k.agr, "nil") })
-			pass := c12Cut(w, fn, func(f an.Fact) bool {
-				return c12LinGE(f, []c12Term{{[]string{k.lim}, 1}, {[]string{k.prem}, -1}})
-			})
-			if len(set) == 0 || len(pass) == 0 || !an.EdgesDominate(set, d.Block()) || !an.EdgesDominate(pass, d.Block()) {
+		justified := false
+		var wrong, unsure []string
+		anyDom := false
+		for _, f := range pf {
+			if f.Edge.From == d.Block() || !an.EdgeDominates(f.Edge, d.Block()) {
 				continue
 			}
+			anyDom = true
+			insts, ok := c12Instances(w, f)
+			if !ok {
+				unsure = append(unsure, "cannot instantiate `"+f.String()+"`")
+				continue
+			}
+			ik := map[string]bool{}
+			good := true
+			for _, in := range insts {
+				found := ""
+				for _, k := range ks {
+					fwd := c12LinGE(in.f, []c12Term{{[]string{k.lim}, 1}, {[]string{k.prem}, -1}})
+					if !fwd {
+						// the right operands in the wrong relation?
+						rel := in.f
+						rel.Rel, rel.Const = ">=", 0
+						if c12LinGE(rel, []c12Term{{[]string{k.lim}, 1}, {[]string{k.prem}, -1}}) || c12LinGE(rel, []c12Term{{[]string{k.lim}, -1}, {[]string{k.prem}, 1}}) {
+							wrong = append(wrong, fmt.Sprintf("the delegation at %s is behind `%s`, which does not imply Swap%s PremiumLimit - Premium >= 0", w.Pos(d.Pos()), in.f.String(), k.name))
+						}
+						continue
+					}
+					set := false
+					for _, pfact := range x.at(fn, in.b, in.via, 0) {
+						if c12StrRel(pfact, "!=", k.agr, "nil") {
+							set = true
+						}
+					}
+					if !set {
+						unsure = append(unsure, "the Swap"+k.name+" premium is compared where the Swap"+k.name+" agreement is not known to be present")
+						continue
+					}
+					found = k.name
+				}
+				if found == "" {
+					good = false
+				} else {
+					ik[found] = true
+				}
+			}
+			if !good {
+				continue
+			}
+			pass := []an.Edge{f.Edge}
 			if bad := c12OnlyFailed(w, c12FailEvents(w, fn, pass)); bad != "" {
-				why = fmt.Sprintf("the Swap%s premium test guards the delegation at %s but its failing side returns%s", k.name, w.Pos(d.Pos()), bad)
+				if strings.Contains(bad, "?") {
+					unsure = append(unsure, "the failing side of the premium test returns a non-constant event")
+				} else {
+					wrong = append(wrong, fmt.Sprintf("the premium test guards the delegation at %s but its failing side returns%s", w.Pos(d.Pos()), bad))
+				}
 				continue
 			}
-			just = k.name
-		}
-		if just == "" {
-			if why == "" {
-				why = fmt.Sprintf("the delegation at %s is not dominated by `agreement != nil` and `PremiumLimit - Premium >= 0` of one swap kind; facts that dominate it: %s", w.Pos(d.Pos()), an.DescribeFacts(w.FactsDominating(d)))
+			justified = true
+			for k := range ik {
+				kinds[k] = true
 			}
-			return kinds, true, why
 		}
-		kinds[just] = true
+		// a helper verdict with several ways to succeed: every way must carry the test of one kind
+		for _, a := range palts {
+			if justified || a.edge.From == d.Block() || !an.EdgeDominates(a.edge, d.Block()) {
+				continue
+			}
+			anyDom = true
+			ak := map[string]bool{}
+			all := true
+			for _, set := range a.sets {
+				found := ""
+				for _, k := range ks {
+					hasPass, hasSet := false, false
+					for _, f := range set {
+						if c12LinGE(f, []c12Term{{[]string{k.lim}, 1}, {[]string{k.prem}, -1}}) {
+							hasPass = true
+						}
+						if c12StrRel(f, "!=", k.agr, "nil") {
+							hasSet = true
+						}
+					}
+					if hasPass && hasSet {
+						found = k.name
+					}
+				}
+				if found == "" {
+					all = false
+				} else {
+					ak[found] = true
+				}
+			}
+			if !all || !a.complete {
+				unsure = append(unsure, "not every way in which "+a.helper+" succeeds is recognised as a premium test of one swap kind")
+				continue
+			}
+			if bad := c12OnlyFailed(w, c12FailEvents(w, fn, []an.Edge{a.edge})); bad != "" {
+				if strings.Contains(bad, "?") {
+					unsure = append(unsure, "the failing side of the premium test returns a non-constant event")
+				} else {
+					wrong = append(wrong, fmt.Sprintf("%s guards the delegation at %s but its failing side returns%s", a.helper, w.Pos(d.Pos()), bad))
+				}
+				continue
+			}
+			justified = true
+			for k := range ak {
+				kinds[k] = true
+			}
+		}
+		if justified {
+			continue
+		}
+		opq := x.opaque(fn, d.Block())
+		switch {
+		case len(wrong) > 0:
+			worse(1, strings.Join(wrong, "; "))
+		case len(unsure) > 0 || len(opq) > 0:
+			worse(2, fmt.Sprintf("cannot decide whether the delegation at %s is behind a premium test: %s", w.Pos(d.Pos()), strings.Join(append(unsure, opq...), "; ")))
+		case !anyDom:
+			worse(1, fmt.Sprintf("the delegation at %s is not dominated by `agreement != nil` and `PremiumLimit - Premium >= 0` of one swap kind; facts that dominate it: %s", w.Pos(d.Pos()), an.DescribeFacts(c12Dom(w, d))))
+		default:
+			worse(2, fmt.Sprintf("the premium comparisons in front of the delegation at %s are not of a recognised form: %s", w.Pos(d.Pos()), an.DescribeFacts(c12Dom(w, d))))
+		}
 	}
-	return kinds, true, ""
+	return kinds, true, verdict, why
 }
 
 func runC12(c *an.Check) {
@@ -454,13 +636,18 @@ func c12R1(c *an.Check, ts, initiators []*TI) {
 					continue
 				}
 				seen[fn] = true
-				kinds, isCheck, why := c12PremiumKinds(w, fn)
+				kinds, isCheck, verdict, why := c12PremiumKinds(w, fn)
 				if !isCheck {
 					continue
 				}
 				name := w.FuncName(fn)
-				if why != "" {
+				if verdict == 1 {
 					c.Bad("C12.R1", name+" delegation", w.Pos(fn.Pos()), why)
+					nBad++
+					continue
+				}
+				if verdict == 2 {
+					c.Unknown("C12.R1", name+" delegation", w.Pos(fn.Pos()), why)
 					nBad++
 					continue
 				}
@@ -567,15 +754,53 @@ func c12R1(c *an.Check, ts, initiators []*TI) {
 func c12R2(c *an.Check) {
 	w := c.W
 	n := 0
+	// anchors: the action bodies of the states that pay the fee invoice; the payment
+	// is the call in the action through which PayInvoiceViaChannel is reached
+	type anchor struct {
+		fn   *ssa.Function
+		site c12Site
+	}
+	var anchors []anchor
+	covered := map[ssa.CallInstruction]bool{}
+	seenFn := map[*ssa.Function]bool{}
+	if ts := tables(c); ts != nil {
+		for _, t := range ts {
+			for _, st := range t.statesWith(fxPayViaChannel) {
+				for _, fn := range c12Bodies(w, t.Sum[st].Execs) {
+					if seenFn[fn] {
+						continue
+					}
+					seenFn[fn] = true
+					seenAt := map[ssa.CallInstruction]bool{}
+					for _, site := range c12Lifted(w, fn, fxPayViaChannel) {
+						covered[site.inner] = true
+						if !seenAt[site.at] {
+							seenAt[site.at] = true
+							anchors = append(anchors, anchor{fn, site})
+						}
+					}
+				}
+			}
+		}
+	}
 	for _, fn := range prodFuncs(w) {
 		if w.FnRel(fn) != "swap" {
 			continue
 		}
-		for _, pay := range callsNamed(w, fn, fxPayViaChannel) {
+		for _, ci := range callsNamed(w, fn, fxPayViaChannel) {
+			if !covered[ci] {
+				c.Unknown("C12.R2", w.FuncName(fn)+" fee payment outside the state actions", w.Pos(ci.Pos()), "PayInvoiceViaChannel is called from a function that no state action reaches synchronously; this rule cannot place its guards")
+			}
+		}
+	}
+	for _, a := range anchors {
+		fn := a.fn
+		{
+			pay := a.site.at
 			n++
 			name := w.FuncName(fn)
 			pos := w.Pos(pay.Pos())
-			payreq := w.Term(pay.Common().Args[0])
+			payreq := w.Term(a.site.inner.Common().Args[0])
 			// the decode of the paid payreq
 			var dec *ssa.Call
 			for _, d := range callsNamed(w, fn, c12Decode) {
@@ -584,6 +809,11 @@ func c12R2(c *an.Check) {
 				}
 			}
 			if dec == nil {
+				if w.Summary(fn).HasEffect(c12Decode) {
+					c.Unknown("C12.R2", name+" fee-bound", pos, "the invoice that is paid ("+payreq+") is decoded somewhere this rule cannot follow (a helper, or under another name)")
+					c.Unknown("C12.R2", name+" spendable", pos, "the invoice that is paid ("+payreq+") is decoded somewhere this rule cannot follow")
+					continue
+				}
 				c.Bad("C12.R2", name+" fee-bound", pos, "the invoice that is paid ("+payreq+") is never decoded in this action: its amount is unchecked")
 				c.Bad("C12.R2", name+" spendable", pos, "the invoice that is paid ("+payreq+") is never decoded in this action")
 				continue
@@ -648,15 +878,23 @@ func c12R2(c *an.Check) {
 				cut := c12Cut(w, fn, g.pass)
 				cons := name + " " + g.id
 				if len(cut) == 0 || !an.EdgesDominate(cut, pay.Block()) {
-					c.Bad("C12.R2", cons, pos, "the fee invoice is paid without `"+g.what+"`; facts that dominate the payment: "+an.DescribeFacts(w.FactsDominating(pay)))
+					if o := c12XOf(w).opaque(fn, pay.Block()); len(o) > 0 {
+						c.Unknown("C12.R2", cons, pos, "`"+g.what+"` is not found in front of the payment, but the verdict of "+strings.Join(o, ", ")+" is tested and cannot be interpreted")
+						continue
+					}
+					c.Bad("C12.R2", cons, pos, "the fee invoice is paid without `"+g.what+"`; facts that dominate the payment: "+an.DescribeFacts(c12Dom(w, pay)))
 					continue
 				}
 				bad := c12OnlyFailed(w, c12FailEvents(w, fn, cut))
+				if strings.Contains(bad, "?") {
+					c.Unknown("C12.R2", cons, pos, "the test dominates the payment but its failing side returns a non-constant event:"+bad)
+					continue
+				}
 				c.Decide(bad == "", "C12.R2", cons, pos, "dominates the payment: "+g.what, "the test exists but its failing side returns"+bad)
 			}
 		}
 	}
-	c.AtLeast("C12.R2", "PayInvoiceViaChannel call sites in package swap", n, 1)
+	c.AtLeast("C12.R2", "fee payments in state actions", n, 1)
 }
 
 // ---- R3 ----------------------------------------------------------------------------------------
@@ -674,36 +912,67 @@ func c12Sum(w *an.World, v ssa.Value) []string {
 
 func c12Getter(c *an.Check, name string, inWant, outWant []string) {
 	w := c.W
+	x := c12XOf(w)
 	fn := w.Func("swap", name)
 	fname := w.FuncName(fn)
 	sort.Strings(inWant)
 	sort.Strings(outWant)
 	seenIn, seenOut := false, false
-	okAll := true
-	for _, r := range an.Returns(fn) {
-		if len(r.Results) != 1 {
+	verdict, why := 0, ""
+	worse := func(v int, m string) {
+		if v == 1 && verdict != 1 || v == 2 && verdict == 0 {
+			verdict, why = v, m
+		}
+	}
+	vocab := map[string]bool{c12InAmt: true, c12InPrem: true, c12OutAmt: true, c12OutPrem: true}
+	cases := c12Cases(fn, 0, true)
+	if len(cases) == 0 {
+		worse(2, "no return value found")
+	}
+	for _, cs := range cases {
+		if cs.lost {
+			worse(2, "cannot determine the value returned at "+w.Pos(cs.ret.Pos()))
 			continue
 		}
-		terms := strings.Join(c12Sum(w, r.Results[0]), " + ")
-		facts := w.FactsDominatingBlock(r.Block())
+		sum := c12Sum(w, cs.v)
+		terms := strings.Join(sum, " + ")
+		facts := x.at(fn, cs.b, cs.via, 0)
 		has := func(field string) bool {
 			return an.AnyFact(facts, func(f an.Fact) bool { return c12StrRel(f, "!=", "field:SwapData."+field, "nil") })
 		}
+		isIn, isOut := terms == strings.Join(inWant, " + "), terms == strings.Join(outWant, " + ")
 		switch {
 		case terms == "0":
-		case terms == strings.Join(inWant, " + ") && has("SwapInRequest"):
+		case isIn && has("SwapInRequest"):
 			seenIn = true
-		case terms == strings.Join(outWant, " + ") && has("SwapOutRequest"):
+		case isOut && has("SwapOutRequest"):
 			seenOut = true
+		case isIn || isOut:
+			worse(2, fmt.Sprintf("returns %s at %s, but this rule cannot see the test of the swap kind under which it does so [%s]", terms, w.Pos(cs.ret.Pos()), an.DescribeFacts(facts)))
 		default:
-			okAll = false
-			c.Bad("C12.R3", fname+" returns", w.Pos(r.Pos()), fmt.Sprintf("returns %s under [%s]; expected %s for a swap-in and %s for a swap-out", terms, an.DescribeFacts(facts), strings.Join(inWant, " + "), strings.Join(outWant, " + ")))
+			known := true
+			for _, t := range sum {
+				if !vocab[t] {
+					known = false
+				}
+			}
+			if known {
+				worse(1, fmt.Sprintf("returns %s under [%s]; expected %s for a swap-in and %s for a swap-out (%s)", terms, an.DescribeFacts(facts), strings.Join(inWant, " + "), strings.Join(outWant, " + "), w.Pos(cs.ret.Pos())))
+			} else {
+				worse(2, fmt.Sprintf("returns %s at %s, which is not a sum of request amount and agreement premium fields", terms, w.Pos(cs.ret.Pos())))
+			}
 		}
 	}
-	if okAll {
-		c.Decide(seenIn && seenOut, "C12.R3", fname+" returns", w.Pos(fn.Pos()),
-			"swap-in: "+strings.Join(inWant, " + ")+"; swap-out: "+strings.Join(outWant, " + "),
-			"the getter has no return for one of the two swap kinds")
+	if verdict == 0 && !(seenIn && seenOut) {
+		worse(2, "found no return for one of the two swap kinds")
+	}
+	switch verdict {
+	case 0:
+		c.OK("C12.R3", fname+" returns", w.Pos(fn.Pos()), "swap-in: "+strings.Join(inWant, " + ")+"; swap-out: "+strings.Join(outWant, " + "))
+	case 1:
+		c.Bad("C12.R3", fname+" returns", w.Pos(fn.Pos()), why)
+	default:
+		c.Unknown("C12.R3", fname+" returns", w.Pos(fn.Pos()), why)
 	}
 }
 
@@ -831,11 +1100,17 @@ func c12R3(c *an.Check, ts []*TI) {
 	for _, t := range takers(ts) {
 		for _, p := range t.statesWith(fxPay) {
 			for _, payFn := range c12Bodies(w, t.Sum[p].Execs) {
-				for _, pay := range callsNamed(w, payFn, fxPay) {
+				seenAt := map[ssa.CallInstruction]bool{}
+				for _, site := range c12Lifted(w, payFn, fxPay) {
+					if seenAt[site.at] {
+						continue
+					}
+					seenAt[site.at] = true
+					pay := site.at // the call in the action through which the payment is made
 					nPay++
 					cons := t.key(p) + " invoice amount"
 					pos := w.Pos(pay.Pos())
-					payreq := w.Term(pay.Common().Args[0])
+					payreq := w.Term(site.inner.Common().Args[0])
 					// (a) equality in the paying function itself
 					eqHere := c12Cut(w, payFn, func(f an.Fact) bool {
 						return c12Widths64(f) && c12LinEQ(f, eqSpec("call:"+c12Decode+"#1", c12ClaimAmt))
@@ -846,10 +1121,10 @@ func c12R3(c *an.Check, ts []*TI) {
 					}
 					// (b) every in-edge of the pay state comes from a state whose action establishes it
 					ins := t.T.InEdges(p)
-					var problems []string
+					var problems, undecided []string
 					usedLegacy := false
 					if len(ins) == 0 {
-						problems = append(problems, "the pay state has no in-edge")
+						undecided = append(undecided, "the pay state has no in-edge")
 					}
 					for _, in := range ins {
 						okState := false
@@ -866,7 +1141,7 @@ func c12R3(c *an.Check, ts []*TI) {
 								}
 							}
 							if !same {
-								whyNot = append(whyNot, w.FuncName(fn)+" decodes another payreq than the one paid ("+payreq+")")
+								undecided = append(undecided, w.FuncName(fn)+" decodes a payreq this rule cannot identify with the one paid ("+payreq+")")
 								continue
 							}
 							build := func(withLegacy bool) []an.Edge {
@@ -907,12 +1182,18 @@ func c12R3(c *an.Check, ts []*TI) {
 							} else if b2 := exits(build(true)); b2 == "" {
 								okState = true
 								usedLegacy = true
+							} else if o := c12XOf(w).opaque(fn); len(o) > 0 || strings.Contains(b2, "?@") {
+								undecided = append(undecided, w.FuncName(fn)+" may leave without the equality test ("+b2+"), but tests verdicts this rule cannot interpret: "+strings.Join(o, ", "))
 							} else {
 								whyNot = append(whyNot, w.FuncName(fn)+" can leave without failure and without the equality test:"+b2)
 							}
 						}
 						if !okState {
 							if len(whyNot) == 0 {
+								if t.Sum[in[0]].HasEffect(c12Decode) {
+									undecided = append(undecided, t.edgeKey(in[0], in[1])+": the invoice is decoded in a helper of that state's action, which this rule does not follow")
+									continue
+								}
 								whyNot = append(whyNot, "no action of that state decodes the invoice")
 							}
 							problems = append(problems, t.edgeKey(in[0], in[1])+": "+strings.Join(whyNot, "; "))
@@ -921,8 +1202,16 @@ func c12R3(c *an.Check, ts []*TI) {
 					if usedLegacy {
 						al := c12Cut(w, payFn, func(f an.Fact) bool { return allowTerm(f, true) })
 						if len(al) == 0 || !an.EdgesDominate(al, pay.Block()) {
-							problems = append(problems, "the equality test is skipped on the AllowNewClaimPayment == false branch, but the payment is not dominated by AllowNewClaimPayment == true")
+							if o := c12XOf(w).opaque(payFn, pay.Block()); len(o) > 0 {
+								undecided = append(undecided, "cannot see whether the payment is behind AllowNewClaimPayment == true (opaque: "+strings.Join(o, ", ")+")")
+							} else {
+								problems = append(problems, "the equality test is skipped on the AllowNewClaimPayment == false branch, but the payment is not dominated by AllowNewClaimPayment == true")
+							}
 						}
+					}
+					if len(problems) == 0 && len(undecided) > 0 {
+						c.Unknown("C12.R3", cons, pos, "cannot decide whether the invoice amount was compared with GetClaimAmount()*1000: "+strings.Join(undecided, " | "))
+						continue
 					}
 					c.Decide(len(problems) == 0, "C12.R3", cons, pos,
 						"every edge into the pay state leaves an action whose non-failing exits are behind decoded amount == GetClaimAmount()*1000",
@@ -935,6 +1224,20 @@ func c12R3(c *an.Check, ts []*TI) {
 }
 
 // ---- R4 ----------------------------------------------------------------------------------------
+
+// c12ConstCases: the integer constants a call argument may hold (a phi of
+// constants is enumerated together with the place that selects each constant).
+func c12ConstCases(v ssa.Value, b *ssa.BasicBlock) (ks []int64, cs []c12Case, ok bool) {
+	for _, k := range c12ValCases(v, b) {
+		n, isK := an.ConstInt(k.v)
+		if k.lost || !isK {
+			return nil, nil, false
+		}
+		ks = append(ks, n)
+		cs = append(cs, k)
+	}
+	return ks, cs, len(ks) > 0
+}
 
 func c12R4(c *an.Check, ts []*TI) {
 	w := c.W
@@ -969,47 +1272,90 @@ func c12R4(c *an.Check, ts []*TI) {
 					pos := w.Pos(al.Pos())
 					v, ok := an.CompositeFieldValue(al, "Premium")
 					if !ok {
-						c.Bad("C12.R4", cons, pos, "the agreement is built without a Premium")
+						c.Unknown("C12.R4", cons, pos, "cannot find the value stored into the Premium of the agreement built here")
 						continue
 					}
-					var problems []string
+					var wrong, unsure []string
+					x := c12XOf(w)
 					calls := c12CallsBehind(v)
 					for _, cl := range calls {
-						if cl == nil || w.Info(cl).Name != c12Compute || len(cl.Call.Args) != 5 {
-							problems = append(problems, "Premium does not (only) come from premium.Setting.Compute: "+w.Term(v))
+						if cl == nil {
+							if _, isK := c12StripConv(v).(*ssa.Const); isK {
+								wrong = append(wrong, "Premium is the constant "+w.Term(v))
+							} else {
+								unsure = append(unsure, "Premium does not (only) come from a call: "+w.Term(v))
+							}
+							continue
+						}
+						if w.Info(cl).Name != c12Compute || len(cl.Call.Args) != 5 {
+							unsure = append(unsure, "Premium comes from "+w.Info(cl).Name+", not directly from premium.Setting.Compute")
 							continue
 						}
 						if ex, isEx := c12StripConv(v).(*ssa.Extract); isEx && ex.Index != 0 {
-							problems = append(problems, "Premium is not result #0 of Compute")
+							wrong = append(wrong, "Premium is not result #0 of Compute")
 						}
 						a := cl.Call.Args
 						if p := w.Term(a[1]); p != "field:SwapData.PeerNodeId" && p != "field:SwapData.InitiatorNodeId" {
-							problems = append(problems, "rate looked up for "+p+" instead of the requesting peer")
+							if strings.HasPrefix(p, "field:SwapData.") {
+								wrong = append(wrong, "rate looked up for "+p+" instead of the requesting peer")
+							} else {
+								unsure = append(unsure, "cannot tie the peer the rate is looked up for ("+p+") to the requester")
+							}
 						}
-						if k, isK := an.ConstInt(a[3]); !isK || k != wantOp {
-							problems = append(problems, fmt.Sprintf("operation argument at %s is not %s", w.Pos(cl.Pos()), opName))
+						if ks, _, okK := c12ConstCases(a[3], cl.Block()); !okK {
+							unsure = append(unsure, "operation argument is not a constant")
+						} else {
+							for _, k := range ks {
+								if k != wantOp {
+									wrong = append(wrong, fmt.Sprintf("operation argument at %s is not %s", w.Pos(cl.Pos()), opName))
+								}
+							}
 						}
-						if amt := w.Term(a[4]); amt != "call:func:(*swap.SwapData).GetAmount" && amt != c12InAmt && amt != c12OutAmt {
-							problems = append(problems, "premium computed on "+amt+" instead of the request amount")
+						switch amt := w.Term(a[4]); amt {
+						case "call:func:(*swap.SwapData).GetAmount", c12InAmt, c12OutAmt:
+						case "call:func:(*swap.SwapData).GetClaimAmount", "call:func:(*swap.SwapData).GetOpeningTXAmount":
+							wrong = append(wrong, "premium computed on "+amt+" instead of the request amount")
+						default:
+							if _, isK := c12StripConv(a[4]).(*ssa.Const); isK {
+								wrong = append(wrong, "premium computed on the constant "+amt)
+							} else {
+								unsure = append(unsure, "cannot tie the amount the premium is computed on ("+amt+") to the request amount")
+							}
 						}
-						facts := w.FactsDominating(cl)
-						isL := an.AnyFact(facts, func(f an.Fact) bool { return c12StrRel(f, "==", lbtc, tChain) })
-						notL := an.AnyFact(facts, func(f an.Fact) bool { return c12StrRel(f, "!=", lbtc, tChain) || c12StrRel(f, "==", btc, tChain) })
-						switch k, isK := an.ConstInt(a[2]); {
-						case !isK:
-							problems = append(problems, "asset argument is not a constant")
-						case k == lbtcA && !isL:
-							problems = append(problems, fmt.Sprintf("the LBTC rate is used at %s on a path not known to be an lbtc swap", w.Pos(cl.Pos())))
-						case k == btcA && !notL:
-							problems = append(problems, fmt.Sprintf("the BTC rate is used at %s on a path not known to be a non-lbtc swap", w.Pos(cl.Pos())))
-						case k != lbtcA && k != btcA:
-							problems = append(problems, fmt.Sprintf("asset constant %d is neither premium.BTC nor premium.LBTC", k))
+						as, acs, okA := c12ConstCases(a[2], cl.Block())
+						if !okA {
+							unsure = append(unsure, "asset argument is not a constant")
+						}
+						for i, k := range as {
+							facts := x.at(fn, acs[i].b, acs[i].via, 0)
+							isL := an.AnyFact(facts, func(f an.Fact) bool { return c12StrRel(f, "==", lbtc, tChain) })
+							notL := an.AnyFact(facts, func(f an.Fact) bool { return c12StrRel(f, "!=", lbtc, tChain) || c12StrRel(f, "==", btc, tChain) })
+							switch {
+							case k == lbtcA && notL:
+								wrong = append(wrong, fmt.Sprintf("the LBTC rate is used at %s on a path on which the swap is not an lbtc swap", w.Pos(cl.Pos())))
+							case k == lbtcA && !isL:
+								unsure = append(unsure, fmt.Sprintf("the LBTC rate is used at %s on a path not known to be an lbtc swap", w.Pos(cl.Pos())))
+							case k == btcA && isL:
+								wrong = append(wrong, fmt.Sprintf("the BTC rate is used at %s on a path on which the swap is an lbtc swap", w.Pos(cl.Pos())))
+							case k == btcA && !notL:
+								unsure = append(unsure, fmt.Sprintf("the BTC rate is used at %s on a path not known to be a non-lbtc swap", w.Pos(cl.Pos())))
+							case k != lbtcA && k != btcA:
+								wrong = append(wrong, fmt.Sprintf("asset constant %d is neither premium.BTC nor premium.LBTC", k))
+							}
 						}
 					}
 					if len(calls) == 0 {
-						problems = append(problems, "Premium is "+w.Term(v))
+						unsure = append(unsure, "Premium is "+w.Term(v))
 					}
-					c.Decide(len(problems) == 0, "C12.R4", cons, pos, "Premium = premium.Setting.Compute(requester, asset of the chain, "+opName+", amount)", strings.Join(problems, "; "))
+					okText := "Premium = premium.Setting.Compute(requester, asset of the chain, " + opName + ", amount)"
+					switch {
+					case len(wrong) > 0:
+						c.Bad("C12.R4", cons, pos, strings.Join(wrong, "; "))
+					case len(unsure) > 0:
+						c.Unknown("C12.R4", cons, pos, strings.Join(unsure, "; "))
+					default:
+						c.OK("C12.R4", cons, pos, okText)
+					}
 				}
 			}
 		}
@@ -1033,25 +1379,49 @@ func c12R4(c *an.Check, ts []*TI) {
 			cons := w.FuncName(fn) + " " + mt + ".PremiumLimit"
 			pos := w.Pos(al.Pos())
 			if !okL || !okA {
-				c.Bad("C12.R4", cons, pos, "a request is created without PremiumLimit or without Amount")
+				c.Unknown("C12.R4", cons, pos, "cannot find the PremiumLimit or the Amount stored into the request built here")
 				continue
 			}
 			cl, _ := c12StripConv(lim).(*ssa.Call)
-			var problems []string
+			var wrong, unsure []string
 			if cl == nil || w.Info(cl).Name != "func:(*premium.PPM).Compute" || len(cl.Call.Args) != 2 {
-				problems = append(problems, "PremiumLimit is "+w.Term(lim)+", not (*premium.PPM).Compute(amount)")
+				if _, isK := c12StripConv(lim).(*ssa.Const); isK {
+					wrong = append(wrong, "PremiumLimit is the constant "+w.Term(lim))
+				} else {
+					unsure = append(unsure, "PremiumLimit is "+w.Term(lim)+", not directly (*premium.PPM).Compute(amount)")
+				}
 			} else {
-				if cl.Call.Args[1] != amt {
-					problems = append(problems, "the limit is computed on "+w.Term(cl.Call.Args[1])+" but the request asks for "+w.Term(amt))
+				if a := cl.Call.Args[1]; c12StripConv(a) != c12StripConv(amt) {
+					base, k, isM := c12MulK(a)
+					_, pa := c12StripConv(a).(*ssa.Parameter)
+					_, pb := c12StripConv(amt).(*ssa.Parameter)
+					_, ka := c12StripConv(a).(*ssa.Const)
+					switch {
+					case isM && k != 1 && c12StripConv(base) == c12StripConv(amt), pa && pb, ka:
+						wrong = append(wrong, "the limit is computed on "+w.Term(a)+" but the request asks for "+w.Term(amt))
+					default:
+						unsure = append(unsure, "cannot tie the amount the limit is computed on ("+w.Term(a)+") to the requested amount ("+w.Term(amt)+")")
+					}
 				}
 				mk, _ := cl.Call.Args[0].(*ssa.Call)
 				if mk == nil || w.Info(mk).Name != "func:premium.NewPPM" || len(mk.Call.Args) != 1 {
-					problems = append(problems, "the rate is not premium.NewPPM(rate)")
+					unsure = append(unsure, "the rate is not directly premium.NewPPM(rate)")
 				} else if _, isP := mk.Call.Args[0].(*ssa.Parameter); !isP {
-					problems = append(problems, "the ppm rate is "+w.Term(mk.Call.Args[0])+", not the caller's rate parameter")
+					if _, isK := mk.Call.Args[0].(*ssa.Const); isK {
+						wrong = append(wrong, "the ppm rate is the constant "+w.Term(mk.Call.Args[0])+", not the caller's rate")
+					} else {
+						unsure = append(unsure, "cannot tie the ppm rate "+w.Term(mk.Call.Args[0])+" to the caller's rate parameter")
+					}
 				}
 			}
-			c.Decide(len(problems) == 0, "C12.R4", cons, pos, "PremiumLimit = NewPPM(rate parameter).Compute(Amount of the same request)", strings.Join(problems, "; "))
+			switch {
+			case len(wrong) > 0:
+				c.Bad("C12.R4", cons, pos, strings.Join(wrong, "; "))
+			case len(unsure) > 0:
+				c.Unknown("C12.R4", cons, pos, strings.Join(unsure, "; "))
+			default:
+				c.OK("C12.R4", cons, pos, "PremiumLimit = NewPPM(rate parameter).Compute(Amount of the same request)")
+			}
 		}
 	}
 	c.AtLeast("C12.R4", "locally created requests", m, 2)
@@ -1071,10 +1441,797 @@ func c12R5(c *an.Check, respExec map[*ssa.Function]bool) {
 			n++
 			cons := w.FuncName(fn) + " store SwapData." + fld
 			nilEdge := c12Cut(w, fn, func(f an.Fact) bool { return c12StrRel(f, "==", "field:SwapData."+fld, "nil") })
+			if !(len(nilEdge) > 0 && an.EdgesDominate(nilEdge, st.Block())) {
+				if o := c12XOf(w).opaque(fn, st.Block()); len(o) > 0 {
+					c.Unknown("C12.R5", cons, w.Pos(st.Pos()), "no `field == nil` test dominates the store, but the verdict of "+strings.Join(o, ", ")+" is tested and cannot be interpreted")
+					continue
+				}
+			}
 			c.Decide(len(nilEdge) > 0 && an.EdgesDominate(nilEdge, st.Block()), "C12.R5", cons, w.Pos(st.Pos()),
 				"stored only while the field is still nil",
-				"SwapData."+fld+" can be overwritten by a later message: where SendEvent applies a context before it tests whether the event is acceptable (as the pinned tree does), a second agreement with a higher premium replaces the one the premium check has already accepted; facts that dominate the store: "+an.DescribeFacts(w.FactsDominating(st)))
+				"SwapData."+fld+" can be overwritten by a later message: where SendEvent applies a context before it tests whether the event is acceptable (as the pinned tree does), a second agreement with a higher premium replaces the one the premium check has already accepted; facts that dominate the store: "+an.DescribeFacts(c12Dom(w, st)))
 		}
 	}
 	c.AtLeast("C12.R5", "agreement stores outside the responder actions", n, 2)
+}
+
+// ---- BEGIN shared expansion (identical in c11.go and c12.go up to the prefix) ----
+//
+// c12X extends the engine's edge facts with what is known on an edge because an
+// in-module helper returned a particular verdict there:
+//   * `if pred(args)` / `if !pred(args)` with pred returning one bool: the facts
+//     that hold whenever pred returns that value;
+//   * the nil edge of `err := check(args)`: the facts that hold whenever check
+//     returns a nil error (`return other(args)` is followed).
+// Callee facts are re-issued on the caller's edge with `param#i` replaced by the
+// name of the i-th argument; callee parameters are bound to the argument values
+// for the rules that look at values. An expansion is *complete* when every
+// return of the helper could be interpreted; a tested helper call whose
+// expansion is incomplete is "opaque": a guard that is not found behind an
+// opaque call is undecided, not violated.
+
+type c12X struct {
+	w      *an.World
+	memo   map[*ssa.Function][]an.Fact
+	opq    map[*ssa.Function][]c12Opq
+	alts   map[*ssa.Function][]c12Alt
+	bind   map[ssa.Value]ssa.Value
+	ambig  map[ssa.Value]bool
+	active map[*ssa.Function]bool
+}
+
+func c12NewX(w *an.World) *c12X {
+	return &c12X{w: w, memo: map[*ssa.Function][]an.Fact{}, opq: map[*ssa.Function][]c12Opq{}, alts: map[*ssa.Function][]c12Alt{}, bind: map[ssa.Value]ssa.Value{}, ambig: map[ssa.Value]bool{}, active: map[*ssa.Function]bool{}}
+}
+
+const c12Depth = 3
+
+// resolve maps a helper parameter to the argument it was called with.
+func (x *c12X) resolve(v ssa.Value) ssa.Value {
+	for i := 0; i < 4; i++ {
+		a, ok := x.bind[v]
+		if !ok || x.ambig[v] {
+			return v
+		}
+		v = a
+	}
+	return v
+}
+
+func c12Key(f an.Fact) string { return f.String() }
+
+// facts: engine facts of fn plus the derived ones.
+func (x *c12X) facts(fn *ssa.Function) []an.Fact { return x.factsD(fn, 0) }
+
+func (x *c12X) factsD(fn *ssa.Function, depth int) []an.Fact {
+	if fs, ok := x.memo[fn]; ok {
+		return fs
+	}
+	base := x.w.Facts(fn)
+	if x.active[fn] {
+		return base
+	}
+	x.active[fn] = true
+	defer delete(x.active, fn)
+	out := append([]an.Fact{}, base...)
+	seen := map[string]bool{}
+	add := func(e an.Edge, fs []an.Fact) {
+		for _, d := range fs {
+			d.Edge = e
+			k := fmt.Sprintf("%p/%d/%s", e.From, e.Idx, c12Key(d))
+			if !seen[k] {
+				seen[k] = true
+				out = append(out, d)
+			}
+		}
+	}
+	for _, f := range base {
+		call, idx, kind := x.verdictCall(f)
+		if call == nil {
+			continue
+		}
+		g := call.Call.StaticCallee()
+		if depth >= c12Depth {
+			x.opq[fn] = append(x.opq[fn], c12Opq{x.w.FuncName(g) + " (nesting too deep)", f.Edge})
+			continue
+		}
+		var ds []an.Fact
+		var sets [][]an.Fact
+		complete := true
+		switch kind {
+		case "bool":
+			ds, sets, complete = x.retFactsS(g, f.Rel == "true", depth+1)
+		case "nil":
+			ds, sets, complete = x.nilFactsS(g, idx, depth+1)
+		}
+		if len(sets) > 1 {
+			a := c12Alt{edge: f.Edge, helper: x.w.FuncName(g), complete: complete}
+			for _, s := range sets {
+				a.sets = append(a.sets, x.subst(s, g, call))
+			}
+			x.alts[fn] = append(x.alts[fn], a)
+		}
+		if !complete {
+			x.opq[fn] = append(x.opq[fn], c12Opq{x.w.FuncName(g), f.Edge})
+		}
+		add(f.Edge, x.subst(ds, g, call))
+	}
+	x.memo[fn] = out
+	return out
+}
+
+// verdictCall: the fact tests the bool result / the nil-ness of the error result
+// of a call to an in-module function with a body.
+func (x *c12X) verdictCall(f an.Fact) (*ssa.Call, int, string) {
+	inMod := func(c *ssa.Call) bool {
+		g := c.Call.StaticCallee()
+		return g != nil && g.Blocks != nil && x.w.InModule(g)
+	}
+	if f.Rel == "true" || f.Rel == "false" {
+		if c, ok := f.Cond.(*ssa.Call); ok && inMod(c) {
+			if r := c.Call.Signature().Results(); r.Len() == 1 && c12IsBool(r.At(0).Type()) {
+				return c, 0, "bool"
+			}
+		}
+		return nil, 0, ""
+	}
+	if f.NonNum && f.Rel == "==" && (f.L == "nil" || f.R == "nil") {
+		for _, v := range []ssa.Value{f.LV, f.RV} {
+			if v == nil {
+				continue
+			}
+			idx := 0
+			if ex, ok := v.(*ssa.Extract); ok {
+				idx = ex.Index
+				v = ex.Tuple
+			}
+			if c, ok := v.(*ssa.Call); ok && inMod(c) {
+				r := c.Call.Signature().Results()
+				if idx < r.Len() && an.IsErrorType(r.At(idx).Type()) {
+					return c, idx, "nil"
+				}
+			}
+		}
+	}
+	return nil, 0, ""
+}
+
+func c12IsBool(t types.Type) bool {
+	b, ok := t.Underlying().(*types.Basic)
+	return ok && b.Info()&types.IsBoolean != 0
+}
+
+func c12IsInt(t types.Type) bool {
+	b, ok := t.Underlying().(*types.Basic)
+	return ok && b.Info()&types.IsInteger != 0
+}
+
+// subst re-issues callee facts in the caller's vocabulary and records the
+// parameter bindings.
+func (x *c12X) subst(fs []an.Fact, g *ssa.Function, call *ssa.Call) []an.Fact {
+	args := call.Call.Args
+	names := make([]string, len(g.Params))
+	for i, p := range g.Params {
+		if i >= len(args) {
+			continue
+		}
+		names[i] = x.w.Term(args[i])
+		if old, ok := x.bind[p]; ok && old != args[i] {
+			x.ambig[p] = true
+		}
+		x.bind[p] = args[i]
+	}
+	rep := func(s string) string {
+		if !strings.Contains(s, "param#") {
+			return s
+		}
+		var sb strings.Builder
+		for i := 0; i < len(s); {
+			if strings.HasPrefix(s[i:], "param#") {
+				j := i + len("param#")
+				n := 0
+				k := j
+				for k < len(s) && s[k] >= '0' && s[k] <= '9' {
+					n = n*10 + int(s[k]-'0')
+					k++
+				}
+				if k > j && n < len(names) && names[n] != "" {
+					sb.WriteString(names[n])
+					i = k
+					continue
+				}
+			}
+			sb.WriteByte(s[i])
+			i++
+		}
+		return sb.String()
+	}
+	var out []an.Fact
+	for _, f := range fs {
+		d := f
+		if f.Terms != nil {
+			d.Terms = map[string]int64{}
+			for k, c := range f.Terms {
+				d.Terms[rep(k)] += c
+			}
+		}
+		d.Atom, d.L, d.R = rep(f.Atom), rep(f.L), rep(f.R)
+		if d.NonNum && (d.Rel == "==" || d.Rel == "!=") && d.L > d.R {
+			d.L, d.R = d.R, d.L
+		}
+		out = append(out, d)
+	}
+	return out
+}
+
+// at: the facts of g that hold when control is in block b (having arrived over
+// edge `via` when via.From != nil).
+func (x *c12X) at(g *ssa.Function, b *ssa.BasicBlock, via an.Edge, depth int) []an.Fact {
+	var out []an.Fact
+	for _, f := range x.factsD(g, depth) {
+		if via.From != nil && f.Edge == via {
+			out = append(out, f)
+			continue
+		}
+		if f.Edge.From == b {
+			continue
+		}
+		if an.EdgeDominates(f.Edge, b) {
+			out = append(out, f)
+		}
+	}
+	return out
+}
+
+// dominating: facts (incl. derived) on every path to the instruction.
+func (x *c12X) dominating(in ssa.Instruction) []an.Fact {
+	return x.at(in.Parent(), in.Block(), an.Edge{}, 0)
+}
+
+// c12Alt: on `edge` one of the alternatives holds (one per way the helper can
+// return the tested verdict); each alternative is a conjunction of facts.
+type c12Alt struct {
+	edge     an.Edge
+	helper   string
+	sets     [][]an.Fact
+	complete bool
+}
+
+// alternatives of fn (disjunctive knowledge on verdict edges).
+func (x *c12X) alternatives(fn *ssa.Function) []c12Alt {
+	x.facts(fn)
+	return x.alts[fn]
+}
+
+type c12Opq struct {
+	name string
+	edge an.Edge
+}
+
+// opaque lists the tested helper calls of fn whose verdict could not be fully
+// interpreted and whose verdict edge lies on every path to one of the given
+// blocks (all such calls when no block is given): only those could hide a guard
+// of these blocks.
+func (x *c12X) opaque(fn *ssa.Function, targets ...*ssa.BasicBlock) []string {
+	x.facts(fn)
+	m := map[string]bool{}
+	for _, o := range x.opq[fn] {
+		if len(targets) == 0 {
+			m[o.name] = true
+			continue
+		}
+		for _, b := range targets {
+			if b != nil && o.edge.From != b && an.EdgeDominates(o.edge, b) {
+				m[o.name] = true
+			}
+		}
+	}
+	return sortedKeys(m)
+}
+
+type c12Case struct {
+	v    ssa.Value
+	b    *ssa.BasicBlock // block in which the case is decided
+	via  an.Edge         // incoming phi edge (From == nil: none)
+	ret  *ssa.Return
+	lost bool // value not determined
+}
+
+// c12Expand expands a value observed in block b into (value, place) pairs,
+// looking through phis (the place is then the predecessor and the incoming edge)
+// and through go/ssa's spilled locals (reaching stores).
+func c12Expand(v ssa.Value, b *ssa.BasicBlock, via an.Edge, r *ssa.Return, depth int, expandSC bool, out *[]c12Case) {
+	if phi, ok := v.(*ssa.Phi); ok && depth < 4 {
+		if _, _, isSC := an.PhiConjuncts(phi); expandSC || !isSC || !c12IsBool(phi.Type()) {
+			for i, e := range phi.Edges {
+				pred := phi.Block().Preds[i]
+				ve := an.Edge{}
+				if len(pred.Succs) == 2 && pred.Succs[0] != pred.Succs[1] {
+					if pred.Succs[0] == phi.Block() {
+						ve = an.Edge{From: pred, Idx: 0}
+					} else {
+						ve = an.Edge{From: pred, Idx: 1}
+					}
+				}
+				c12Expand(e, pred, ve, r, depth+1, expandSC, out)
+			}
+			return
+		}
+	}
+	if u, ok := v.(*ssa.UnOp); ok && u.Op == token.MUL && depth < 4 {
+		if al, ok := u.X.(*ssa.Alloc); ok {
+			sts, fromEntry := an.StoresReaching(u, al)
+			if fromEntry || len(sts) == 0 {
+				*out = append(*out, c12Case{v: v, b: b, via: via, ret: r, lost: true})
+				return
+			}
+			for _, st := range sts {
+				c12Expand(st.Val, st.Block(), an.Edge{}, r, depth+1, expandSC, out)
+			}
+			return
+		}
+	}
+	*out = append(*out, c12Case{v: v, b: b, via: via, ret: r})
+}
+
+// c12Cases expands the idx-th result of every return of g.
+func c12Cases(g *ssa.Function, idx int, expandSC bool) []c12Case {
+	var out []c12Case
+	for _, r := range an.Returns(g) {
+		if r.Block() == g.Recover || idx >= len(r.Results) {
+			continue
+		}
+		c12Expand(r.Results[idx], r.Block(), an.Edge{}, r, 0, expandSC, &out)
+	}
+	return out
+}
+
+// c12ValCases expands a value used in block b.
+func c12ValCases(v ssa.Value, b *ssa.BasicBlock) []c12Case {
+	var out []c12Case
+	c12Expand(v, b, an.Edge{}, nil, 0, true, &out)
+	return out
+}
+
+func c12Intersect(sets [][]an.Fact) []an.Fact {
+	if len(sets) == 0 {
+		return nil
+	}
+	var out []an.Fact
+	done := map[string]bool{}
+	for _, f := range sets[0] {
+		k := c12Key(f)
+		if done[k] {
+			continue
+		}
+		done[k] = true
+		all := true
+		for _, s := range sets[1:] {
+			has := false
+			for _, h := range s {
+				if c12Key(h) == k {
+					has = true
+					break
+				}
+			}
+			if !has {
+				all = false
+				break
+			}
+		}
+		if all {
+			out = append(out, f)
+		}
+	}
+	return out
+}
+
+// retFacts: facts that hold whenever g (one bool result) returns `holds`.
+func (x *c12X) retFacts(g *ssa.Function, holds bool, depth int) ([]an.Fact, bool) {
+	fs, _, c := x.retFactsS(g, holds, depth)
+	return fs, c
+}
+
+func (x *c12X) retFactsS(g *ssa.Function, holds bool, depth int) ([]an.Fact, [][]an.Fact, bool) {
+	complete := true
+	var sets [][]an.Fact
+	for _, cs := range c12Cases(g, 0, false) {
+		if cs.lost {
+			complete = false
+			sets = append(sets, nil)
+			continue
+		}
+		if k, ok := cs.v.(*ssa.Const); ok && k.Value != nil && k.Value.Kind() == constant.Bool {
+			if constant.BoolVal(k.Value) != holds {
+				continue
+			}
+			sets = append(sets, x.at(g, cs.b, cs.via, depth))
+			continue
+		}
+		fs, ok := x.condFacts(cs.v, holds, depth)
+		if !ok {
+			complete = false
+		}
+		sets = append(sets, append(x.at(g, cs.b, cs.via, depth), fs...))
+	}
+	return c12Intersect(sets), sets, complete
+}
+
+// nonNil: the error value of this case cannot be nil.
+func (x *c12X) nonNil(cs c12Case) bool { return x.nonNilD(cs, 0) }
+
+func (x *c12X) nonNilD(cs c12Case, depth int) bool {
+	v := cs.v
+	switch y := v.(type) {
+	case *ssa.MakeInterface:
+		return true
+	case *ssa.UnOp:
+		if _, isG := y.X.(*ssa.Global); isG && y.Op == token.MUL {
+			return true // package-level error variable
+		}
+	case *ssa.Call:
+		switch x.w.Info(y).Name {
+		case "func:errors.New", "func:fmt.Errorf":
+			return true
+		}
+	}
+	// the value was tested non-nil on the way here
+	var call *ssa.Call
+	if ex, ok := v.(*ssa.Extract); ok {
+		call, _ = ex.Tuple.(*ssa.Call)
+	} else {
+		call, _ = v.(*ssa.Call)
+	}
+	if call != nil {
+		// a constructor of errors: every return of the in-module callee is non-nil
+		if h := call.Call.StaticCallee(); h != nil && h.Blocks != nil && x.w.InModule(h) && depth < 2 {
+			idx := 0
+			if ex, ok := v.(*ssa.Extract); ok {
+				idx = ex.Index
+			}
+			hc := c12Cases(h, idx, false)
+			all := len(hc) > 0
+			for _, k := range hc {
+				if k.lost || an.IsNilConst(k.v) || !x.nonNilD(k, depth+1) {
+					all = false
+				}
+			}
+			if all {
+				return true
+			}
+		}
+		if _, fail := an.OkEdges(call); len(fail) > 0 {
+			for _, e := range fail {
+				if e == cs.via {
+					return true
+				}
+			}
+			if an.EdgesDominate(fail, cs.b) {
+				return true
+			}
+		}
+	}
+	return false
+}
+
+// nilFacts: facts that hold whenever the idx-th (error) result of g is nil.
+func (x *c12X) nilFacts(g *ssa.Function, idx int, depth int) ([]an.Fact, bool) {
+	fs, _, c := x.nilFactsS(g, idx, depth)
+	return fs, c
+}
+
+func (x *c12X) nilFactsS(g *ssa.Function, idx int, depth int) ([]an.Fact, [][]an.Fact, bool) {
+	complete := true
+	var sets [][]an.Fact
+	for _, cs := range c12Cases(g, idx, false) {
+		if cs.lost {
+			complete = false
+			sets = append(sets, nil)
+			continue
+		}
+		if an.IsNilConst(cs.v) {
+			sets = append(sets, x.at(g, cs.b, cs.via, depth))
+			continue
+		}
+		if x.nonNil(cs) {
+			continue
+		}
+		// `return other(args)`
+		v := cs.v
+		hidx := 0
+		if ex, ok := v.(*ssa.Extract); ok {
+			hidx = ex.Index
+			v = ex.Tuple
+		}
+		if c, ok := v.(*ssa.Call); ok {
+			h := c.Call.StaticCallee()
+			if h != nil && h.Blocks != nil && x.w.InModule(h) && depth < c12Depth {
+				hf, hc := x.nilFacts(h, hidx, depth+1)
+				if !hc {
+					complete = false
+				}
+				sets = append(sets, append(x.at(g, cs.b, cs.via, depth), x.subst(hf, h, c)...))
+				continue
+			}
+		}
+		complete = false
+		sets = append(sets, x.at(g, cs.b, cs.via, depth))
+	}
+	return c12Intersect(sets), sets, complete
+}
+
+// condFacts: facts that hold when the boolean value v equals `holds`.
+func (x *c12X) condFacts(v ssa.Value, holds bool, depth int) ([]an.Fact, bool) {
+	w := x.w
+	for {
+		if u, ok := v.(*ssa.UnOp); ok && u.Op == token.NOT {
+			holds = !holds
+			v = u.X
+			continue
+		}
+		if bo, ok := v.(*ssa.BinOp); ok && (bo.Op == token.EQL || bo.Op == token.NEQ) && c12IsBool(bo.X.Type()) {
+			var other ssa.Value
+			var cv *ssa.Const
+			if c, ok := bo.Y.(*ssa.Const); ok {
+				other, cv = bo.X, c
+			} else if c, ok := bo.X.(*ssa.Const); ok {
+				other, cv = bo.Y, c
+			}
+			if cv != nil && cv.Value != nil && cv.Value.Kind() == constant.Bool {
+				if (bo.Op == token.EQL) != constant.BoolVal(cv.Value) {
+					holds = !holds
+				}
+				v = other
+				continue
+			}
+		}
+		break
+	}
+	if ops, isAnd, ok := an.PhiConjuncts(v); ok {
+		if isAnd != holds {
+			return nil, true // a disjunction: nothing definite, but nothing lost that a single fact could say
+		}
+		var out []an.Fact
+		complete := true
+		for _, op := range ops {
+			fs, c := x.condFacts(op, holds, depth)
+			out = append(out, fs...)
+			complete = complete && c
+		}
+		// the operand that decided the constant edges
+		phi := v.(*ssa.Phi)
+		for i, e := range phi.Edges {
+			if _, isC := e.(*ssa.Const); !isC {
+				continue
+			}
+			pred := phi.Block().Preds[i]
+			if len(pred.Instrs) == 0 {
+				continue
+			}
+			if pi, ok := pred.Instrs[len(pred.Instrs)-1].(*ssa.If); ok && len(pred.Succs) == 2 {
+				if (isAnd && pred.Succs[1] == phi.Block() && pred.Succs[0] != phi.Block()) || (!isAnd && pred.Succs[0] == phi.Block() && pred.Succs[1] != phi.Block()) {
+					fs, c := x.condFacts(pi.Cond, holds, depth)
+					out = append(out, fs...)
+					complete = complete && c
+				}
+			}
+		}
+		return out, complete
+	}
+	if _, isPhi := v.(*ssa.Phi); isPhi {
+		return nil, false
+	}
+	f := an.Fact{Cond: v}
+	bo, isCmp := v.(*ssa.BinOp)
+	if isCmp {
+		switch bo.Op {
+		case token.EQL, token.NEQ, token.LSS, token.LEQ, token.GTR, token.GEQ:
+		default:
+			isCmp = false
+		}
+	}
+	if !isCmp {
+		f.Atom = w.Term(v)
+		if holds {
+			f.Rel = "true"
+		} else {
+			f.Rel = "false"
+		}
+		out := []an.Fact{f}
+		complete := true
+		if c, ok := v.(*ssa.Call); ok {
+			f.Args = c.Call.Args
+			out[0] = f
+			if g := c.Call.StaticCallee(); g != nil && g.Blocks != nil && w.InModule(g) && c.Call.Signature().Results().Len() == 1 {
+				if depth >= c12Depth {
+					return out, false
+				}
+				ds, cpl := x.retFacts(g, holds, depth+1)
+				out = append(out, x.subst(ds, g, c)...)
+				complete = cpl
+			}
+		}
+		return out, complete
+	}
+	op := bo.Op
+	if !holds {
+		switch op {
+		case token.EQL:
+			op = token.NEQ
+		case token.NEQ:
+			op = token.EQL
+		case token.LSS:
+			op = token.GEQ
+		case token.LEQ:
+			op = token.GTR
+		case token.GTR:
+			op = token.LEQ
+		case token.GEQ:
+			op = token.LSS
+		}
+	}
+	f.LV, f.RV = bo.X, bo.Y
+	lf := w.LinearDiff(bo.X, bo.Y)
+	if lf == nil {
+		f.NonNum = true
+		l, r := w.Term(bo.X), w.Term(bo.Y)
+		switch op {
+		case token.EQL, token.NEQ:
+			if l > r {
+				l, r = r, l
+			}
+		case token.LSS:
+			l, r, op = r, l, token.GTR
+		case token.LEQ:
+			l, r, op = r, l, token.GEQ
+		}
+		f.L, f.R, f.Rel = l, r, op.String()
+		return []an.Fact{f}, true
+	}
+	f.Terms = map[string]int64{}
+	for k, c := range lf.Terms {
+		f.Terms[k] = c
+	}
+	f.Const = lf.Const
+	f.Widths = append(c12ArithWidths(bo.X, 0), c12ArithWidths(bo.Y, 0)...)
+	flip := false
+	switch op {
+	case token.LSS:
+		flip, op = true, token.GTR
+	case token.LEQ:
+		flip, op = true, token.GEQ
+	case token.EQL, token.NEQ:
+		var ks []string
+		for k := range f.Terms {
+			ks = append(ks, k)
+		}
+		sort.Strings(ks)
+		if len(ks) > 0 && f.Terms[ks[0]] < 0 {
+			flip = true
+		} else if len(ks) == 0 && f.Const < 0 {
+			flip = true
+		}
+	}
+	if flip {
+		for k := range f.Terms {
+			f.Terms[k] = -f.Terms[k]
+		}
+		f.Const = -f.Const
+	}
+	f.Rel = op.String()
+	return []an.Fact{f}, true
+}
+
+// c12ArithWidths: bit widths of the integer additions/subtractions/multiplications under v.
+func c12ArithWidths(v ssa.Value, depth int) []int {
+	if depth > 8 {
+		return nil
+	}
+	switch y := v.(type) {
+	case *ssa.Convert:
+		if c12IsInt(y.Type()) && c12IsInt(y.X.Type()) {
+			return c12ArithWidths(y.X, depth+1)
+		}
+	case *ssa.ChangeType:
+		return c12ArithWidths(y.X, depth+1)
+	case *ssa.BinOp:
+		if !c12IsInt(y.Type()) {
+			return nil
+		}
+		switch y.Op {
+		case token.ADD, token.SUB, token.MUL:
+			wd := 64
+			if b, ok := y.Type().Underlying().(*types.Basic); ok {
+				switch b.Kind() {
+				case types.Int8, types.Uint8:
+					wd = 8
+				case types.Int16, types.Uint16:
+					wd = 16
+				case types.Int32, types.Uint32:
+					wd = 32
+				}
+			}
+			return append(append(c12ArithWidths(y.X, depth+1), c12ArithWidths(y.Y, depth+1)...), wd)
+		}
+	}
+	return nil
+}
+
+// cut: the edges of fn on which pass holds (engine and derived facts).
+func (x *c12X) cut(fn *ssa.Function, pass func(an.Fact) bool) []an.Edge {
+	var out []an.Edge
+	seen := map[an.Edge]bool{}
+	for _, f := range x.facts(fn) {
+		if !seen[f.Edge] && pass(f) {
+			seen[f.Edge] = true
+			out = append(out, f.Edge)
+		}
+	}
+	return out
+}
+
+// c12Site is an effect call as seen from an anchor function: `at` is the call
+// instruction in the anchor (the effect itself, or the call of the in-module
+// helper through which it is reached), `inner` the effect call itself.
+type c12Site struct {
+	at    ssa.CallInstruction
+	inner ssa.CallInstruction
+}
+
+// c12Lifted lists the calls of fn through which the effect `name` is reached
+// synchronously (directly or inside in-module helpers, depth <= 3).
+func c12Lifted(w *an.World, fn *ssa.Function, name string) []c12Site {
+	var out []c12Site
+	var inner func(h *ssa.Function, depth int, seen map[*ssa.Function]bool) []ssa.CallInstruction
+	inner = func(h *ssa.Function, depth int, seen map[*ssa.Function]bool) []ssa.CallInstruction {
+		if seen[h] || depth > 3 {
+			return nil
+		}
+		seen[h] = true
+		var r []ssa.CallInstruction
+		for _, ci := range an.Calls(h) {
+			if _, isGo := ci.(*ssa.Go); isGo {
+				continue
+			}
+			if w.Info(ci).Name == name {
+				r = append(r, ci)
+				continue
+			}
+			if g := ci.Common().StaticCallee(); g != nil && g.Blocks != nil && w.InModule(g) && w.Info(ci).Name != fxActionExecute {
+				r = append(r, inner(g, depth+1, seen)...)
+			}
+		}
+		return r
+	}
+	for _, ci := range an.Calls(fn) {
+		if _, isGo := ci.(*ssa.Go); isGo {
+			continue
+		}
+		if w.Info(ci).Name == name {
+			out = append(out, c12Site{ci, ci})
+			continue
+		}
+		if g := ci.Common().StaticCallee(); g != nil && g.Blocks != nil && w.InModule(g) {
+			for _, in := range inner(g, 1, map[*ssa.Function]bool{fn: true}) {
+				out = append(out, c12Site{ci, in})
+			}
+		}
+	}
+	return out
+}
+
+// ---- END shared expansion ----
+
+var c12Xs = map[*an.World]*c12X{}
+var c12Xmu sync.Mutex
+
+func c12XOf(w *an.World) *c12X {
+	c12Xmu.Lock()
+	defer c12Xmu.Unlock()
+	x := c12Xs[w]
+	if x == nil {
+		x = c12NewX(w)
+		c12Xs[w] = x
+	}
+	return x
 }
